@@ -146,3 +146,20 @@ pub fn distance_to(store: &NodeRecordStore, key: &Key) -> (Distance, U256) {
         .distance(&NetworkAddress::from_record_key(key));
     (d, convert_distance_to_u256(&d))
 }
+
+/// The `NodeRecordStore` inside a node's `SwarmDriver` (what `kademlia.store_mut()` holds), for
+/// read-only observation next to commands that go through the real handlers.
+pub fn node_store_mut(driver: &mut crate::SwarmDriver) -> Option<&mut NodeRecordStore> {
+    match driver.swarm.behaviour_mut().kademlia.store_mut() {
+        crate::record_store_api::UnifiedRecordStore::Node(store) => Some(store),
+        crate::record_store_api::UnifiedRecordStore::Client(_) => None,
+    }
+}
+
+/// Test configuration only: `NetworkBuilder::build_node` always uses the default capacity and cache
+/// size; the harness sets small ones on the freshly built (empty) store before any command.
+pub fn set_capacities(store: &mut NodeRecordStore, max_records: usize, records_cache_size: usize) {
+    store.config.max_records = max_records;
+    store.config.records_cache_size = records_cache_size;
+    store.records_cache.cache_size = records_cache_size;
+}
